@@ -93,7 +93,7 @@ theorem flushBuffered_inv {S : Schema} {fields : List (String × Nat)} {o : Byte
 
 
 section
-variable {ac : Bool} {nb : Allow} {ext : Ext} {a : Bool} {S : Schema}
+variable {nb : Allow} {ext : Ext} {a : Bool} {S : Schema}
 
 theorem RecInv.w_none_of_flushed {fields : List (String × Nat)} {o : Bytes}
     {w : Nat → Option (Value × Bytes)} {rs : RecordState} {s : SerState}
@@ -104,10 +104,10 @@ theorem RecInv.w_none_of_flushed {fields : List (String × Nat)} {o : Bytes}
   | none => rfl
   | some x => rw [hw] at this; simp at this
 
-theorem recordValue_inv (hS : SchemaOK ac nb S) {fields : List (String × Nat)} {o : Bytes}
+theorem recordValue_inv (hS : SchemaOK nb S) {fields : List (String × Nat)} {o : Bytes}
     {w : Nat → Option (Value × Bytes)} {rs : RecordState} {s : SerState}
     (hinv : RecInv S fields o w rs s) (hfl : Flushed rs) (idx : Nat) (hidx : rs.current ≤ idx)
-    (sv : SV) (hsv : SerSound ac nb ext a S sv) (rs' : RecordState) (s' : SerState)
+    (sv : SV) (hsv : SerSound nb ext a S sv) (rs' : RecordState) (s' : SerState)
     (hrun : recordValue S fields rs idx (fun node => ser ext a S node sv) s = (.ok rs', s')) :
     ∃ f fnode v e, fields[idx]? = some f ∧ S[f.2]? = some fnode ∧ w idx = none ∧
       denotes (denExtOf ext) S fnode sv v = true ∧
@@ -277,11 +277,11 @@ end
 
 
 section
-variable {ac : Bool} {nb : Allow} {ext : Ext} {a : Bool} {S : Schema}
+variable {nb : Allow} {ext : Ext} {a : Bool} {S : Schema}
 
-theorem serFields_record_sound (hS : SchemaOK ac nb S) (fields : List (String × Nat))
+theorem serFields_record_sound (hS : SchemaOK nb S) (fields : List (String × Nat))
     (hd : (fields.map (·.1)).Nodup) (o : Bytes) (flds : List (String × SV))
-    (hIH : ∀ p ∈ flds, SerSound ac nb ext a S p.2) :
+    (hIH : ∀ p ∈ flds, SerSound nb ext a S p.2) :
     ∀ done w rs s k' s', RecInv S fields o w rs s → Flushed rs →
     PresInv (denExtOf ext) S fields w done →
     serFields ext a S (.record fields rs) flds s = (.ok k', s') →
@@ -361,9 +361,9 @@ end
 
 
 section
-variable {ac : Bool} {nb : Allow} {S : Schema}
+variable {nb : Allow} {S : Schema}
 
-theorem nullFill_sound (hS : SchemaOK ac nb S) (k : Nat) (s : SerState) (hs : Good s)
+theorem nullFill_sound (hS : SchemaOK nb S) (k : Nat) (s : SerState) (hs : Good s)
     (hok : (nullFill S k s).1 = .ok ()) :
     ∃ fnode v e, S[k]? = some fnode ∧ nullFill S k s = (.ok (), { s with out := s.out ++ e }) ∧
       Dec S fnode e v ∧ isNullish S fnode v = true := by
@@ -403,7 +403,7 @@ end
 
 
 section
-variable {ac : Bool} {nb : Allow} {ext : DenExt} {S : Schema}
+variable {nb : Allow} {ext : DenExt} {S : Schema}
 
 theorem RecInv.advance {fields : List (String × Nat)} {o : Bytes}
     {w : Nat → Option (Value × Bytes)} {rs : RecordState} {s : SerState}
@@ -444,7 +444,7 @@ theorem RecInv.advance {fields : List (String × Nat)} {o : Bytes}
       · simp only [wUpdate, h, if_false] at hw'
         exact hinv.wit i v' e' hw' }
 
-theorem recordEnd_inv (hS : SchemaOK ac nb S) (fields : List (String × Nat)) (o : Bytes)
+theorem recordEnd_inv (hS : SchemaOK nb S) (fields : List (String × Nat)) (o : Bytes)
     (done : List (String × SV)) :
     ∀ fuel w rs s rs' s', RecInv S fields o w rs s → Flushed rs → PresInv ext S fields w done →
     recordEnd S fields fuel rs s = (.ok rs', s') →
@@ -546,11 +546,11 @@ theorem encFields_of_w {S : Schema} {fields : List (String × Nat)}
 
 
 section
-variable {ac : Bool} {nb : Allow} {ext : Ext} {a : Bool} {S : Schema}
+variable {nb : Allow} {ext : Ext} {a : Bool} {S : Schema}
 
-theorem structCore_record_sound (hS : SchemaOK ac nb S) (nm : Name) (fields : List (String × Nat))
-    (hnok : NodeOK ac nb S (.record nm fields)) (L : Nat) (durLen : Option Nat)
-    (flds : List (String × SV)) (hIH : ∀ p ∈ flds, SerSound ac nb ext a S p.2)
+theorem structCore_record_sound (hS : SchemaOK nb S) (nm : Name) (fields : List (String × Nat))
+    (hnok : NodeOK nb S (.record nm fields)) (L : Nat) (durLen : Option Nat)
+    (flds : List (String × SV)) (hIH : ∀ p ∈ flds, SerSound nb ext a S p.2)
     (s : SerState) (hs : Good s)
     (hok : (structCore S (.record nm fields) L durLen
       (fun k s => serFields ext a S k flds s) s).1 = .ok ()) :
@@ -627,12 +627,12 @@ end
 
 
 section
-variable {ac : Bool} {nb : Allow} {ext : Ext} {a : Bool} {S : Schema}
+variable {nb : Allow} {ext : Ext} {a : Bool} {S : Schema}
 
-theorem structCoreF_sound (hS : SchemaOK ac nb S) (n : Node) (hnok : NodeOK ac nb S n)
+theorem structCoreF_sound (hS : SchemaOK nb S) (n : Node) (hnok : NodeOK nb S n)
     (L : Nat) (durLen : Option Nat) (flds : List (String × SV)) (hlen : flds.length < 2 ^ 63)
     (hle : flds.length ≤ L)
-    (hIH : ∀ p ∈ flds, (utf8 p.1).length < 2 ^ 63 ∧ SerSound ac nb ext a S p.2)
+    (hIH : ∀ p ∈ flds, (utf8 p.1).length < 2 ^ 63 ∧ SerSound nb ext a S p.2)
     (s : SerState) (hs : Good s)
     (hok : (structCore S n L durLen (fun k s => serFields ext a S k flds s) s).1 = .ok ()) :
     Res S n (structCore S n L durLen (fun k s => serFields ext a S k flds s)) s (fun v =>
@@ -660,11 +660,11 @@ theorem structCoreF_sound (hS : SchemaOK ac nb S) (n : Node) (hnok : NodeOK ac n
     simp [structAtNode, h1, h2]
   all_goals simp [structCore, structStartAt, bind, SerM.fail] at hok
 
-theorem structCoreE_sound (hS : SchemaOK ac nb S) (n : Node) (hnok : NodeOK ac nb S n)
-    (hstr : NodeOK ac nb S .string)
+theorem structCoreE_sound (hS : SchemaOK nb S) (n : Node) (hnok : NodeOK nb S n)
+    (hstr : NodeOK nb S .string)
     (L : Nat) (durLen : Option Nat) (entries : List (SV × SV)) (hlen : entries.length < 2 ^ 63)
     (hle : nb.openMap = true ∨ lenCovers L entries.length = true)
-    (hIH : ∀ p ∈ entries, SerSound ac nb ext a S p.1 ∧ SerSound ac nb ext a S p.2)
+    (hIH : ∀ p ∈ entries, SerSound nb ext a S p.1 ∧ SerSound nb ext a S p.2)
     (s : SerState) (hs : Good s)
     (hok : (structCore S n L durLen (fun k s => serEntries ext a S k entries s) s).1 = .ok ()) :
     Res S n (structCore S n L durLen (fun k s => serEntries ext a S k entries s)) s (fun v =>
@@ -706,7 +706,7 @@ theorem structCoreE_sound (hS : SchemaOK ac nb S) (n : Node) (hnok : NodeOK ac n
       unfold Res
       rw [hcongr]
       simp only [hfields]
-      have hIHf : ∀ p ∈ fields, SerSound ac nb ext a S p.2 := fun p hp =>
+      have hIHf : ∀ p ∈ fields, SerSound nb ext a S p.2 := fun p hp =>
         (hIH _ (strKeys_mem hfields hp)).2
       rcases hrd with ⟨nm, fs, rfl⟩ | rfl
       · refine (structCore_record_sound hS nm fs hnok L durLen fields hIHf s hs hok).mono ?_
@@ -726,13 +726,13 @@ end
 
 
 section
-variable {ac : Bool} {nb : Allow} {ext : Ext} {a : Bool} {S : Schema}
+variable {nb : Allow} {ext : Ext} {a : Bool} {S : Schema}
 
 /-- sequence-like presentations without a variant name -/
-theorem seqLike_sound (hS : SchemaOK ac nb S) (len : Option Nat) (elems : List SV)
+theorem seqLike_sound (hS : SchemaOK nb S) (len : Option Nat) (elems : List SV)
     (hlen : elems.length < 2 ^ 63) (hle : nb.openSeq = true ∨ lenCovers (len.getD 0) elems.length = true)
-    (hIH : ∀ e ∈ elems, SerSound ac nb ext a S e)
-    (node : Node) (s : SerState) (hn : NodeOK ac nb S node) (hs : Good s)
+    (hIH : ∀ e ∈ elems, SerSound nb ext a S e)
+    (node : Node) (s : SerState) (hn : NodeOK nb S node) (hs : Good s)
     (hok : (seqBody ext a S node len elems s).1 = .ok ()) :
     Res S node (seqBody ext a S node len elems) s (fun v =>
       seqDispatch S node none v (fun item items => denotesList (denExtOf ext) S item elems items)
@@ -740,9 +740,9 @@ theorem seqLike_sound (hS : SchemaOK ac nb S) (len : Option Nat) (elems : List S
   (seqBody_sound hS node hn len elems hlen hle hIH s hs hok).mono fun _ h =>
     seqDispatch_of_viaUnion (fun _ _ _ => nameAgrees_none _ _ _) h
 
-theorem ser_canon_aux (hS : SchemaOK ac nb S) (hext : ExtOK ext) :
-    ∀ N sv, sizeOf sv ≤ N → svOK ac sv = true → svCanon nb sv = true →
-      SerSound ac nb ext a S sv := by
+theorem ser_canon_aux (hS : SchemaOK nb S) (hext : ExtOK ext) :
+    ∀ N sv, sizeOf sv ≤ N → svOK sv = true → svCanon nb sv = true →
+      SerSound nb ext a S sv := by
   intro N
   induction N with
   | zero =>
@@ -777,9 +777,8 @@ theorem ser_canon_aux (hS : SchemaOK ac nb S) (hext : ExtOK ext) :
       intro node s hn hs hok
       simp only [ser] at hok ⊢
       simp only [denotes_char]
-      have hac : ac = true := by simpa [svOK] using hsv
       exact Res.of_leaf hs (serStr_sound hS hn s hs.1 hext (.char c) (String.singleton c)
-        (Or.inr ⟨c, rfl, rfl, hac⟩) (utf8_singleton_length c) hok)
+        (Or.inr ⟨c, rfl, rfl⟩) (utf8_singleton_length c) hok)
     | str str =>
       intro node s hn hs hok
       simp only [ser] at hok ⊢
@@ -840,7 +839,7 @@ theorem ser_canon_aux (hS : SchemaOK ac nb S) (hext : ExtOK ext) :
       intro node s hn hs hok
       simp only [svOK, Bool.and_eq_true, decide_eq_true_eq] at hsv
       simp only [svCanon, Bool.and_eq_true] at hcn
-      have hIH : ∀ e ∈ elems, SerSound ac nb ext a S e := fun e he =>
+      have hIH : ∀ e ∈ elems, SerSound nb ext a S e := fun e he =>
         ih e (by have := List.sizeOf_lt_of_mem he; simp only [SV.seq.sizeOf_spec] at hsz; omega)
           (svOKList_mem hsv.2 he) (svCanonList_mem hcn.2 he)
       have heq : ser ext a S node (.seq len elems) = seqBody ext a S node len elems := by
@@ -852,7 +851,7 @@ theorem ser_canon_aux (hS : SchemaOK ac nb S) (hext : ExtOK ext) :
       intro node s hn hs hok
       simp only [svOK, Bool.and_eq_true, decide_eq_true_eq] at hsv
       simp only [svCanon] at hcn
-      have hIH : ∀ e ∈ elems, SerSound ac nb ext a S e := fun e he =>
+      have hIH : ∀ e ∈ elems, SerSound nb ext a S e := fun e he =>
         ih e (by have := List.sizeOf_lt_of_mem he; simp only [SV.tuple.sizeOf_spec] at hsz; omega)
           (svOKList_mem hsv.2 he) (svCanonList_mem hcn he)
       have heq : ser ext a S node (.tuple elems) = seqBody ext a S node (some elems.length) elems := by
@@ -864,7 +863,7 @@ theorem ser_canon_aux (hS : SchemaOK ac nb S) (hext : ExtOK ext) :
       intro node s hn hs hok
       simp only [svOK, Bool.and_eq_true, decide_eq_true_eq] at hsv
       simp only [svCanon] at hcn
-      have hIH : ∀ e ∈ elems, SerSound ac nb ext a S e := fun e he =>
+      have hIH : ∀ e ∈ elems, SerSound nb ext a S e := fun e he =>
         ih e (by have := List.sizeOf_lt_of_mem he; simp only [SV.tupleStruct.sizeOf_spec] at hsz; omega)
           (svOKList_mem hsv.2 he) (svCanonList_mem hcn he)
       have heq : ser ext a S node (.tupleStruct nm elems) =
@@ -877,7 +876,7 @@ theorem ser_canon_aux (hS : SchemaOK ac nb S) (hext : ExtOK ext) :
       intro node s hn hs hok
       simp only [svOK, Bool.and_eq_true, decide_eq_true_eq] at hsv
       simp only [svCanon] at hcn
-      have hIH : ∀ e ∈ elems, SerSound ac nb ext a S e := fun e he =>
+      have hIH : ∀ e ∈ elems, SerSound nb ext a S e := fun e he =>
         ih e (by have := List.sizeOf_lt_of_mem he; simp only [SV.tupleVariant.sizeOf_spec] at hsz; omega)
           (svOKList_mem hsv.2 he) (svCanonList_mem hcn he)
       have heq : ser ext a S node (.tupleVariant nm idx variant elems) =
@@ -893,7 +892,7 @@ theorem ser_canon_aux (hS : SchemaOK ac nb S) (hext : ExtOK ext) :
       intro node s hn hs hok
       simp only [svOK, Bool.and_eq_true, decide_eq_true_eq] at hsv
       simp only [svCanon, Bool.and_eq_true] at hcn
-      have hIH : ∀ p ∈ entries, SerSound ac nb ext a S p.1 ∧ SerSound ac nb ext a S p.2 := fun p hp =>
+      have hIH : ∀ p ∈ entries, SerSound nb ext a S p.1 ∧ SerSound nb ext a S p.2 := fun p hp =>
         have hsz' := sizeOf_lt_of_mem_entries hp
         have hok' := svOKEntries_mem hsv.2 hp
         have hcn' := svCanonEntries_mem hcn.2 hp
@@ -915,7 +914,7 @@ theorem ser_canon_aux (hS : SchemaOK ac nb S) (hext : ExtOK ext) :
       intro node s hn hs hok
       simp only [svOK, Bool.and_eq_true, decide_eq_true_eq] at hsv
       simp only [svCanon] at hcn
-      have hIH : ∀ p ∈ fields, (utf8 p.1).length < 2 ^ 63 ∧ SerSound ac nb ext a S p.2 := fun p hp =>
+      have hIH : ∀ p ∈ fields, (utf8 p.1).length < 2 ^ 63 ∧ SerSound nb ext a S p.2 := fun p hp =>
         have hsz' := sizeOf_lt_of_mem_fields hp
         have hok' := svOKFields_mem hsv.2 hp
         ⟨hok'.1, ih p.2 (by simp only [SV.struct.sizeOf_spec] at hsz; omega) hok'.2
@@ -937,7 +936,7 @@ theorem ser_canon_aux (hS : SchemaOK ac nb S) (hext : ExtOK ext) :
       intro node s hn hs hok
       simp only [svOK, Bool.and_eq_true, decide_eq_true_eq] at hsv
       simp only [svCanon] at hcn
-      have hIH : ∀ p ∈ fields, (utf8 p.1).length < 2 ^ 63 ∧ SerSound ac nb ext a S p.2 := fun p hp =>
+      have hIH : ∀ p ∈ fields, (utf8 p.1).length < 2 ^ 63 ∧ SerSound nb ext a S p.2 := fun p hp =>
         have hsz' := sizeOf_lt_of_mem_fields hp
         have hok' := svOKFields_mem hsv.2 hp
         ⟨hok'.1, ih p.2 (by simp only [SV.structVariant.sizeOf_spec] at hsz; omega) hok'.2
